@@ -1695,6 +1695,14 @@ func c08Corpus() []c08Case {
 		// expunge under a stale view, then non-UID commands, then NOOP
 		{1, 3, []c08Cmd{ap(0, 0, true), ap(0, 0, true), ap(0, 0, false), ap(0, 0, false), sl(0, 0), sl(1, 0), sl(2, 0), {Conn: 1, K: "expunge"}, ap(2, 0, false),
 			{Conn: 0, K: "fetch", Set: "1:*", WFlags: true}, {Conn: 0, K: "store", Set: "1:*", Sop: 2}, {Conn: 0, K: "search"}, {Conn: 0, K: "search", UID: true}, {Conn: 2, K: "fetch", Set: "1:*", Seen: true}, {Conn: 0, K: "noop"}}},
+		// an EXISTS queued before an EXPUNGE of an older message, the new message still there: non-UID
+		// SEARCH / FETCH / STORE under that stale view
+		{1, 2, []c08Cmd{ap(0, 0, true), ap(0, 0, false), sl(0, 0), sl(1, 0), ap(1, 0, false), {Conn: 1, K: "expunge"}, {Conn: 0, K: "search"}, {Conn: 0, K: "search", UID: true},
+			{Conn: 0, K: "fetch", Set: "1:*"}, {Conn: 0, K: "noop"}, {Conn: 0, K: "search"}}},
+		{1, 2, []c08Cmd{ap(0, 0, false), ap(0, 0, true), ap(0, 0, false), sl(0, 0), sl(1, 0), ap(1, 0, false), ap(1, 0, false), {Conn: 1, K: "expunge"}, {Conn: 0, K: "search"},
+			{Conn: 0, K: "store", Set: "1:*", Sop: 0}, {Conn: 0, K: "search", SQ: "*"}, {Conn: 0, K: "noop"}}},
+		{1, 3, []c08Cmd{ap(0, 0, true), ap(0, 0, true), sl(0, 0), sl(1, 0), sl(2, 0), ap(1, 0, false), {Conn: 1, K: "uidexpunge", Set: "2"}, ap(2, 0, false), {Conn: 2, K: "expunge"}, {Conn: 0, K: "search"},
+			{Conn: 0, K: "fetch", Set: "1:*", WFlags: true}, {Conn: 0, K: "noop"}}},
 		// IDLE while others append, expunge and move
 		{2, 3, []c08Cmd{ap(0, 0, true), ap(0, 0, false), sl(0, 0), sl(1, 0), sl(2, 0), {Conn: 0, K: "idle"}, ap(1, 0, false), {Conn: 1, K: "expunge"}, {Conn: 2, K: "move", Set: "1", Mb: 1}, {Conn: 0, K: "done"}, {Conn: 0, K: "fetch", Set: "1:*"}}},
 		// CLOSE expunges silently; reselecting
